@@ -72,6 +72,21 @@ def parse(text, crate):
     n = len(lines)
     while i < n:
         line = lines[i]
+        m1 = re.match(r"^const (.+?): ([^=]+) = const (.*);$", line)
+        if m1:
+            fn = Fn(line, "const")
+            fn.fullname = m1.group(1).strip()
+            fn.path = _path_of(fn.fullname)
+            im = IMPL_RE.search(fn.fullname)
+            if im:
+                fn.impl_loc = (im.group(1), int(im.group(2)), int(im.group(3)))
+            fn.all_impl_locs = [(x.group(1), int(x.group(2)), int(x.group(3))) for x in IMPL_RE.finditer(fn.fullname)]
+            fn.ret = m1.group(2).strip()
+            fn.blocks["bb0"] = (["_0 = const " + m1.group(3).strip()], "return")
+            fn.crate = crate
+            fns.append(fn)
+            i += 1
+            continue
         m = HEADER_RE.match(line)
         if m and line.rstrip().endswith("{"):
             j = i + 1
@@ -119,8 +134,7 @@ def _parse_item(kind, header, body):
         name, rest = _split_const(h)
         fn.ret = rest
     fn.fullname = name.strip()
-    fn.path = IMPL_RE.sub("", fn.fullname)
-    fn.path = fn.path.lstrip(":")
+    fn.path = _path_of(fn.fullname)
     for prm, ty in fn.params:
         fn.types[prm] = ty
     cur = None
@@ -150,6 +164,14 @@ def _parse_item(kind, header, body):
                 s = s[:-1]
             stmts.append(s)
     return fn
+
+
+def _path_of(fullname):
+    """Lookup key: what follows the last `<impl at ..>` marker, else the whole (module-qualified) path."""
+    ms = list(IMPL_RE.finditer(fullname))
+    if ms:
+        return fullname[ms[-1].end():].lstrip(":")
+    return fullname
 
 
 def _find_params_open(h):
